@@ -57,7 +57,7 @@ func (n Number) Number() float64 {
 }
 
 func (n Number) Bool() bool {
-	return n != 0
+	return n != 0 && !math.IsNaN(float64(n))
 }
 
 type String string
